@@ -69,6 +69,18 @@ class Unknown(Exception):
     pass
 
 
+class SFile:
+    """a symbolic text file: readline() yields the next template line"""
+
+    def __init__(self, lines):
+        self.lines = list(lines)
+
+    def readline(self):
+        if not self.lines:
+            return ""
+        return self.lines.pop(0)
+
+
 def to_sint(x):
     if isinstance(x, SInt):
         return x
@@ -135,6 +147,8 @@ class SEval:
     def bind(self, t, v):
         if isinstance(t, ast.Name):
             self.env[t.id] = v
+        elif isinstance(t, ast.Attribute):
+            self.env[norm(t)] = v
         elif isinstance(t, (ast.Tuple, ast.List)):
             vs = list(v.items) if isinstance(v, SVec) else list(v)
             if len(vs) != len(t.elts):
@@ -162,6 +176,8 @@ class SEval:
                 return SInt(pa - pb)
             if isinstance(op, ast.Mult):
                 return SInt(pa * pb)
+            if isinstance(op, ast.Div) and pb.const_value() not in (None, 0):
+                return SInt(pa.divide_by_monomial_const(pb.const_value()))
         raise Unknown(f"binop {type(op).__name__} on {type(a).__name__},{type(b).__name__}")
 
     def ev(self, n):
@@ -222,6 +238,8 @@ class SEval:
                     return self.leaf(n)
                 raise Unknown(f"index {i!r} of {type(v).__name__}")
         if isinstance(n, ast.Attribute):
+            if norm(n) in self.env:
+                return self.env[norm(n)]
             if self.leaf:
                 return self.leaf(n)
             raise Unknown(f"attribute {norm(n)}")
@@ -256,14 +274,25 @@ class SEval:
             if fn in ("np.array", "numpy.array", "np.asarray"):
                 v = self.ev(n.args[0])
                 v = v.items if isinstance(v, SVec) else v
+                if any(isinstance(x, (list, SVec)) for x in v):
+                    return SVec([x if isinstance(x, SVec) else SVec(x) for x in v])
                 return SVec([to_sint(x) for x in v])
+            if fn in ("np.transpose", "numpy.transpose"):
+                v = self.ev(n.args[0])
+                rows = [list(r.items) if isinstance(r, SVec) else list(r) for r in (v.items if isinstance(v, SVec) else v)]
+                return [SVec(c) for c in zip(*rows)]
             if fn in ("np.append", "numpy.append"):
                 a, b = self.ev(n.args[0]), self.ev(n.args[1])
                 a = a.items if isinstance(a, SVec) else list(a)
                 return SVec(list(a) + [to_sint(b)])
-            recv = self.ev(f.value)
             m = f.attr
+            if m == "append" and isinstance(f.value, (ast.Name, ast.Attribute)) and norm(f.value) not in self.env \
+                    and not (isinstance(f.value, ast.Name) and f.value.id in self.env):
+                self.env[norm(f.value)] = []
+            recv = self.ev(f.value)
             args = [self.ev(a) for a in n.args]
+            if isinstance(recv, SFile) and m == "readline":
+                return recv.readline()
             if isinstance(recv, SBytes):
                 if m == "decode":
                     return recv.s
@@ -289,7 +318,7 @@ class SEval:
             raise Unknown(f"method {m} on {type(recv).__name__}")
         if isinstance(f, ast.Name):
             args = [self.ev(a) for a in n.args]
-            if f.id == "int":
+            if f.id in ("int", "float"):
                 return to_sint(args[0])
             if f.id == "str":
                 return self.to_str(args[0])
